@@ -54,6 +54,7 @@ type Ctx struct {
 	Seed  int64
 	Repo  string
 	Verif string
+	Out   string // where evidence/ and replays/ are written (VERIF_OUT, default Verif)
 	Level string // evidence level
 	Rule  string
 	Start time.Time
@@ -117,7 +118,11 @@ func NewCtx(id, tier string) *Ctx {
 	if verif == "" {
 		verif = "/verif"
 	}
-	c := &Ctx{ID: id, Tier: tier, Seed: seed, Repo: repo, Verif: verif, Level: "exploration",
+	out := os.Getenv("VERIF_OUT")
+	if out == "" {
+		out = verif
+	}
+	c := &Ctx{ID: id, Tier: tier, Seed: seed, Repo: repo, Verif: verif, Out: out, Level: "exploration",
 		Start: time.Now(), distinct: map[uint64]struct{}{}, extra: map[string]any{},
 		violKeys: map[string]bool{}, knownHit: map[string]Finding{}, known: map[string]Finding{}, maxSamples: 6}
 	c.loadKnown()
@@ -270,7 +275,7 @@ func (c *Ctx) Finish() int {
 			break
 		}
 		sum := sha256.Sum256([]byte(v.Key))
-		dir := filepath.Join(c.Verif, "replays", c.ID)
+		dir := filepath.Join(c.Out, "replays", c.ID)
 		_ = os.MkdirAll(dir, 0o755)
 		p := filepath.Join(dir, hex.EncodeToString(sum[:6])+".json")
 		b, _ := json.MarshalIndent(map[string]any{
@@ -311,8 +316,8 @@ func (c *Ctx) Finish() int {
 		ev.Tier = "quick"
 	}
 	b := marshalNoEscape(ev)
-	_ = os.MkdirAll(filepath.Join(c.Verif, "evidence"), 0o755)
-	if err := os.WriteFile(filepath.Join(c.Verif, "evidence", c.ID+".json"), b, 0o644); err != nil {
+	_ = os.MkdirAll(filepath.Join(c.Out, "evidence"), 0o755)
+	if err := os.WriteFile(filepath.Join(c.Out, "evidence", c.ID+".json"), b, 0o644); err != nil {
 		fmt.Fprintf(os.Stderr, "cannot write evidence: %v\n", err)
 	}
 	for _, k := range khits {
